@@ -156,3 +156,169 @@ def decompile_traced(arg: dict) -> dict:
     except BaseException as e:  # noqa
         return _exc(e)
     return {"text": text, "source_map": sm_json(sm), "log": log, "fallback": "is-ssb-script" in text.split("\n", 1)[0]}
+
+
+# ----------------------------------------------------------------------------------------------------------------------
+# C08: multi-file projects, SourceMapBuilder protocol trace
+# ----------------------------------------------------------------------------------------------------------------------
+def _pairs(d: Any) -> list:
+    return [[str(k), v if isinstance(v, int) and not isinstance(v, bool) else str(v)] for k, v in dict(d).items()]
+
+
+def _mm_json(m: Any) -> list:
+    """MacroSourceMapping -> [relpath, name, line, col, called_in|None, return_addr, [[k, v]…]]"""
+    ci = None if m.called_in is None else [m.called_in[0], m.called_in[1], m.called_in[2]]
+    return [m.relpath_included_file, m.macro_name, m.line, m.column, ci, m.return_addr, _pairs(m.parameter_mapping)]
+
+
+class _SmbTrace:
+    """Records, from outside, every call of the public methods of every SourceMapBuilder object created while it is
+    installed (the routine visitor's builder and each macro visitor's builder), and the inputs of every
+    ExplorerScriptMacro.build call (counter, blueprint kinds with the source map entries `_build_op` will read,
+    paths, parameter mapping, position-mark lists).  The wrapped bodies are the current /repo code."""
+
+    def __init__(self) -> None:
+        self.builders: dict[int, int] = {}
+        self.objs: list = []
+        self.logs: list[list] = []
+        self.builds: list[dict] = []
+        self.built: list = []
+        self.saved: list = []
+
+    def idx(self, b: Any) -> int:
+        i = self.builders.get(id(b))
+        if i is None:
+            i = len(self.logs)
+            self.builders[id(b)] = i
+            self.objs.append(b)
+            self.logs.append([])
+        return i
+
+    def install(self) -> None:
+        from explorerscript import source_map as smod
+        from explorerscript import macro as mmod
+        from explorerscript.ssb_converting.ssb_special_ops import SsbLabel, SsbLabelJump
+        B = smod.SourceMapBuilder
+        tr = self
+
+        def wrap(name: str, enc: Any) -> None:
+            orig = getattr(B, name)
+            self.saved.append((B, name, orig))
+
+            def w(self, *a, **kw):  # type: ignore
+                tr.logs[tr.idx(self)].append(enc(*a, **kw))
+                return orig(self, *a, **kw)
+            setattr(B, name, w)
+        wrap("add_opcode", lambda op_offset, line_number, column: ["op", op_offset, line_number, column])
+        wrap("add_position_mark", lambda position_mark: ["pm", position_mark.serialize()])
+        wrap("macro_context__push", lambda opcode_to_jump_to, parameter_mapping: ["push", opcode_to_jump_to, _pairs(parameter_mapping)])
+        wrap("macro_context__pop", lambda: ["pop"])
+        wrap("next_macro_opcode_called_in", lambda if_incl_rel_path, line_number, column: ["ci", if_incl_rel_path, line_number, column])
+        wrap("add_macro_opcode", lambda op_offset, if_incl_rel_path, macro_name, line_number, column: ["mop", op_offset, if_incl_rel_path, macro_name, line_number, column])
+        wrap("add_macro_position_mark", lambda if_incl_rel_path, macro_name, position_mark: ["mpm", if_incl_rel_path, macro_name, position_mark.serialize()])
+        orig_smb_build = B.build
+        self.saved.append((B, "build", orig_smb_build))
+
+        def smb_build(self):  # type: ignore
+            sm = orig_smb_build(self)
+            tr.built.append((sm, tr.idx(self)))     # (the object is kept so that its identity stays unique)
+            return sm
+        B.build = smb_build
+        M = mmod.ExplorerScriptMacro
+        orig_build = M.build
+        self.saved.append((M, "build", orig_build))
+
+        def build(self, op_idx_counter, lbl_idx_counter, parameters, smb):  # type: ignore
+            bi = tr.idx(smb)
+            bp = []
+            for o in self.blueprints:
+                if isinstance(o, mmod.MacroStartSsbLabel):
+                    bp.append(["ms", o.length_of_macro, _pairs(o.parameter_mapping)])
+                elif isinstance(o, mmod.MacroEndSsbLabel):
+                    bp.append(["me"])
+                elif isinstance(o, SsbLabel):
+                    bp.append(["lbl"])
+                else:
+                    off = o.root.offset if isinstance(o, SsbLabelJump) else o.offset
+                    rel = self.source_map.get_op_line_and_col__macros(off)
+                    dr = self.source_map.get_op_line_and_col__direct(off)
+                    bp.append(["op", None if rel is None else _mm_json(rel), None if dr is None else [dr.line, dr.column]])
+            rec = {"builder": bi, "count": op_idx_counter.count, "bp": bp, "start": len(tr.logs[bi]),
+                   "macro": {"name": self.name, "relpath": self.included__relative_path, "params": _pairs({x: str(y) for x, y in parameters.items()}),
+                             "pos_direct": [p.serialize() for p in self.source_map.get_position_marks__direct()],
+                             "pos_macros": [[y[0], y[1], y[2].serialize()] for y in self.source_map.get_position_marks__macros()]},
+                   "same_tables": self.source_map.get_position_marks__macros() is smb._pos_marks_macros}   # aliasing (hang) indicator
+            tr.builds.append(rec)
+            out = orig_build(self, op_idx_counter, lbl_idx_counter, parameters, smb)
+            rec["end"] = len(tr.logs[bi])
+            rec["count_after"] = op_idx_counter.count
+            rec["out"] = [("ms" if isinstance(o, mmod.MacroStartSsbLabel) else "me" if isinstance(o, mmod.MacroEndSsbLabel) else "lbl" if isinstance(o, SsbLabel) else "op") for o in out]
+            rec["out_len"] = out[0].length_of_macro
+            return out
+        M.build = build
+
+    def remove(self) -> None:
+        for cls, name, orig in reversed(self.saved):
+            setattr(cls, name, orig)
+        self.saved = []
+
+    def result(self, final_sm: Any) -> dict:
+        from explorerscript.source_map import SourceMap
+        finals = []
+        routine = None
+        for i, b in enumerate(self.objs):
+            finals.append(json.loads(SourceMap(b._mappings, b._pos_marks, b._mappings_macros, b._pos_marks_macros).serialize()))
+        for sm, i in self.built:
+            if sm is final_sm:
+                routine = i
+        return {"logs": self.logs, "builds": self.builds, "finals": finals, "routine_builder": routine}
+
+
+def compile_project(arg: dict) -> dict:
+    """arg: {"root": abs dir (created and removed here), "main": rel path, "texts": {rel path: text}, "lookup": [abs], "trace": bool}
+    -> compile_text result + "included": [rel paths of IncludedUsageMap] + "trace" """
+    import shutil
+    from explorerscript.ssb_converting.ssb_compiler import ExplorerScriptSsbCompiler
+    from explorerscript.included_usage_map import IncludedUsageMap
+    root = arg["root"]
+    assert root.startswith("/tmp/")
+    shutil.rmtree(root, ignore_errors=True)
+    tr = _SmbTrace() if arg.get("trace") else None
+    try:
+        for f, t in arg["texts"].items():
+            p = os.path.join(root, f)
+            os.makedirs(os.path.dirname(p), exist_ok=True)
+            with open(p, "w", encoding="utf-8") as fh:
+                fh.write(t)
+        main = os.path.join(root, arg["main"])
+        c = ExplorerScriptSsbCompiler(arg.get("perf", PERF_VAR), arg.get("lookup", []))
+        if tr:
+            tr.install()
+        try:
+            c.compile(arg["texts"][arg["main"]], main)
+        except BaseException as e:  # noqa
+            r = _exc(e)
+            r["partial_output"] = c.routine_ops is not None
+            return r
+        finally:
+            if tr:
+                tr.remove()
+        out = rsjson.rs_to_json(c.routine_infos, c.routine_ops, c.named_coroutines)
+        out["source_map"] = sm_json(c.source_map)
+        out["macro_order"] = list(c.macro_resolution_order)
+        out["included"] = sorted(os.path.relpath(p, root) for p in IncludedUsageMap(c.source_map, main).included_files)
+        if tr:
+            out["trace"] = tr.result(c.source_map)
+        return out
+    finally:
+        shutil.rmtree(root, ignore_errors=True)
+
+
+def compile_traced(arg: dict) -> dict:
+    """single-file form: {"text"} compiled as <root>/main.exps with the SourceMapBuilder protocol trace"""
+    root = arg.get("root") or f"/tmp/c08w/single_{os.getpid()}"
+    return compile_project({"root": root, "main": "main.exps", "texts": {"main.exps": arg["text"]}, "lookup": arg.get("lookup", []), "trace": True})
+
+
+def compile_project_many(args: list[dict]) -> list[dict]:
+    return [compile_project(a) for a in args]
